@@ -194,7 +194,12 @@ class C11(Check):
                     "SoftwareSwitchBase.rx_packet/_rx_flow_mod/_rx_packet_out/_output_packet, flow_table.py; tied by this correspondence run",
                     "Python ideal-bridge oracle (harness/c11.py oracle_ex) written independently of the model"]
     assumptions = ["control channel processed to quiescence between data-plane arrivals (single-threaded cooperative POX; the harness pumps the byte pipes)",
-                   "flood hold-down _flood_delay = 0 (the module default); ports up, no NO_FLOOD/NO_FWD port config; flow table not full",
+                   "ports up, no NO_FLOOD/NO_FWD port config; flow table not full",
+                   "hold_down > 0: frames inside the window are judged by the ideal-bridge oracle only (not flooded by design; every other clause as stated); "
+                   "the model and theorems cover hold_down = 0 and every history whose frames all arrive after the window",
+                   "injected faults (a physical send raising; a controller write that is late, partial or fatal) and `ignore` are oracle-only except the late / "
+                   "partial writes, which must change nothing and are model-compared; after a fatal write error the controller drops that switch and the "
+                   "property is judged on the other switches only",
                    "bursts (several packet-ins in one controller read) are checked against the ideal-bridge oracle only, not against the model or theorems",
                    "an exception escaping rx_packet / the control channel is recorded as an observable of that arrival (model disagreement), other harness errors are broken ties",
                    "network-wide no-duplicates (no switch port sees one frame twice when the links form a forest) is checked by the oracle, not proved",
@@ -208,7 +213,12 @@ class C11(Check):
             "port i is port base+i; half of the exhaustive corpus runs on 255..257), switches that share nothing but the controller component, transport "
             "port 0/256/257/65535, the all-zero MAC, a group address as source, ethertype 0x0600, frames of exactly 128/129 bytes, rx_packet with and "
             "without packet_data, same-port drop entries kept busy while the destination moves, BURSTS (several frames reach a switch before the control "
-            "channel moves: several packet-ins per read; oracle only, the model answers packet-ins one at a time); the three code variants (K1 relearn, "
+            "channel moves: several packet-ins per read; oracle only, the model answers packet-ins one at a time); OPTIONS of the component as case parameters, "
+            "started through launch() with the option texts: hold_down 1..30 s with frames before, at the edge of and after the window on the virtual clock, "
+            "transparent, ignore (every subset of 2..3 switches); FAULTS as case parameters: the k-th physical send of a switch raises (19 spellings, every k of a "
+            "walk through all answer kinds, pools 0..2) — that frame may be lost, later frames and the buffer pool must be as if nothing happened; the k-th "
+            "controller write is late or partial (EAGAIN / BlockingIOError / short by 0,1,8,len-1 bytes; a deferred sender with the real ordering contract; "
+            "nothing may change) or fatal (that switch is dropped, the others must be unharmed); the three code variants (K1 relearn, "
             "drop entry in_port, D26 exact ranking) are found by probing the running system, source shapes are a cross-check recorded in the evidence; the oracle keeps the SPECIFIED flow cache (10 s idle / 30 s hard, removed at "
             "the first sweep after a timeout) to judge 'no older cached flow is still installed'; non-trivial = the history has both a packet-in and a cached-flow hit, or four kinds of outcome")
 
@@ -439,8 +449,12 @@ class C11(Check):
     def impl(self, case):
         clock = poxenv.clock
         clock.now = T0_MS / 1000.0
-        self.core.l2_learning.transparent = bool(case["transparent"])
-        nodes = [self.Node(self, i, s["ports"], s["bufs"], s.get("base", 0)) for i, s in enumerate(case["switches"])]
+        self.configure(case)
+        fault = case.get("fault")
+        stub_deferred = self.of_01.deferredSender
+        if fault and fault["at"] == "ctl":
+            self.live_deferred = self.of_01.deferredSender = LiveDeferred()
+        nodes = []
         pd = case.get("pd", True)          # rx_packet(packet, port, packet_data=bytes) or rx_packet(packet, port): both are its calling convention
         def deliver(n, fb, port):
             """one frame reaches a port of the real switch; an exception that escapes the code under test is an observable, not a harness error"""
@@ -457,9 +471,21 @@ class C11(Check):
             except Exception as e:
                 n.pipe.to_switch = b""; n.pipe.to_ctl = b""
                 return type(e).__name__
+        def fault_fired(n):
+            """did the injected fault fire at switch n since the last call (an observable of the arrival it hit)"""
+            f = None
+            if n.dp_hit: n.dp_hit = False; f = "dp"
+            if n.csock.hit: n.csock.hit = False; f = "ctl"
+            return f
         try:
+            for i, w in enumerate(case["switches"]):
+                nodes.append(self.Node(self, i, w["ports"], w["bufs"], w.get("base", 0)))
             for n in nodes:
                 if n.dpid not in self.core.openflow.connections: raise RuntimeError("handshake did not complete")
+            if fault:
+                fn = nodes[fault.get("sw", 0)]
+                if fault["at"] == "dp": fn.dp_fault = (fault["k"], fault["exc"])
+                else: fn.csock.fault = (fault["k"], fault["exc"])
             link = {}
             for a, pa, b, pb in case.get("links", []):
                 link[(a, pa)] = (b, pb); link[(b, pb)] = (a, pa)
@@ -491,6 +517,9 @@ class C11(Check):
                         if ex or exc2: a["exc"] = ex or exc2
                         if self.errs: a["errs"] = sorted(set(self.errs))
                         arrivals.append(a)
+                    ff = fault_fired(n)
+                    if ff:
+                        for a in arrivals: a["fault"] = ff
                     stray = [p for p, b in n.out if b not in fbs]
                     steps.append({"k": "burst", "arr": arrivals, "stray": len(stray) + sum(1 for d in self.pin_data if d not in fbs)})
                 else:
@@ -509,6 +538,8 @@ class C11(Check):
                                          "bufs": [0 if b is None else 1 for b in n.sw._packet_buffer]})
                         if ex: arrivals[-1]["exc"] = ex
                         if self.errs: arrivals[-1]["errs"] = sorted(set(self.errs))
+                        ff = fault_fired(n)
+                        if ff: arrivals[-1]["fault"] = ff
                         for p, _ in n.out:
                             if (si, p) in link: queue.append(link[(si, p)])
                     steps.append({"k": "rx", "arr": arrivals})
@@ -517,6 +548,26 @@ class C11(Check):
             for n in nodes:
                 try: n.con.disconnect()
                 except Exception: pass
+            self.live_deferred = None
+            self.of_01.deferredSender = stub_deferred
+
+    def configure(self, case):
+        """The component's documented options are case parameters.  `transparent` alone is set on the registered component (as before); a case with
+        `hold_down` (seconds) or `ignore` (indices of switches the component must leave alone) starts the component the way the command line does:
+        `l2_learning.launch(transparent=..., hold_down=..., ignore=...)` with the option TEXTS, after the previous instance stopped listening."""
+        hd, ign = int(case.get("hold_down") or 0), sorted(case.get("ignore") or [])
+        if hd or ign or self._options_dirty:
+            from pox.lib.util import dpid_to_str
+            old = self.core.components.get("l2_learning")
+            if old is not None:
+                gone = [self.core.openflow.removeListener(getattr(old, a)) for a in dir(old) if a.startswith("_handle_") and callable(getattr(old, a))]
+                if not any(gone): raise RuntimeError("the previous l2_learning instance could not be made to stop listening")
+            dpids = [self._dpid + 1 + i for i in ign]                 # Node() hands out dpids in this order
+            kw = {"transparent": str(bool(case["transparent"])), "hold_down": str(hd)}
+            if dpids: kw["ignore"] = ",".join(dpid_to_str(d) for d in dpids)
+            self.l2.launch(**kw)
+            self._options_dirty = bool(hd or ign)
+        self.core.l2_learning.transparent = bool(case["transparent"])
 
     # ------------------------------------------------------------------ cases
     A, B, Cc = 0x0a, 0x0b, 0x0c
@@ -653,7 +704,85 @@ class C11(Check):
                               rx(1, A, B), {"op": "burst", "sw": 0, "frames": [f(1, A, B, 9), f(1, A, B, 10, key=2), f(2, B, A, 11), f(1, A, A, 12)]},
                               {"op": "adv", "ms": 10125}, {"op": "sweep", "sw": 0},
                               {"op": "burst", "sw": 0, "frames": [f(3, B, A, 13), f(1, A, B, 14), f(2, Cc, B, 15), f(2, Cc, A, 16, kind="arp")]}], bufs=bufs))
-        return cases + self._exhaustive("quick")
+        return cases + self.option_cases() + self.fault_cases() + self._exhaustive("quick")
+
+    def walk(self, nports=4):
+        """a history in which every kind of answer of the control loop occurs several times: floods, first frames of NEW known-unicast
+        conversations (each installs a flow and forwards one frame), hits of installed flows, a filtered frame, a host move"""
+        rx, A, B, Cc, D = self.rx, self.A, self.B, self.Cc, 0x0d
+        return [rx(1, A, BCAST), rx(2, B, A), rx(3, Cc, A), rx(4, D, A), rx(1, A, B), rx(1, A, Cc), rx(2, B, Cc), rx(3, Cc, B), rx(2, B, A), rx(4, D, B),
+                rx(1, A, D), rx(3, Cc, STP), rx(3, Cc, D), rx(4, D, Cc), rx(2, D, BCAST), rx(1, A, D, key=2), rx(3, Cc, D, key=2), rx(2, D, Cc, key=2),
+                rx(3, Cc, 0xfe), rx(2, B, D), rx(1, A, B, kind="arp"), rx(2, B, A, kind="arp"), rx(4, Cc, BCAST), rx(1, A, Cc, key=3), rx(2, B, Cc, key=3)]
+
+    def option_cases(self):
+        """HARDENING 16: the component's documented options are inputs.  hold_down = N s with frames before, at the edges of and after the window
+        (virtual clock; unknown / broadcast / multicast / known / filtered / same-port frames inside the window; pools of 0..3 so that frames
+        inside the window are buffered and unbuffered), transparent with it, `ignore` naming every subset position of 2..3 switches."""
+        rx, A, B, Cc = self.rx, self.A, self.B, self.Cc
+        adv = lambda ms: {"op": "adv", "ms": ms}
+        out = []
+        def inside(k):
+            return [rx(1, A, BCAST, key=k), rx(2, B, A, key=k), rx(3, Cc, 0xfe, key=k), rx(1, A, IP_MC, key=k), rx(1, A, STP, key=k), rx(1, A, B, key=k),
+                    rx(2, B, B, key=k), rx(3, Cc, A, kind="arp", key=k), rx(2, B, BCAST, kind="arp", key=k), rx(1, A, 0xfd, pay=100, key=k)]
+        for hd in (1, 2, 5, 30):
+            for bufs in (0, 1, 3):
+                for tr in (False, True):
+                    if tr and bufs == 1: continue
+                    ops = inside(1) + [adv(hd * 1000 - 250)] + inside(2) + [adv(125)] + inside(3)[:4] + [adv(125)] + inside(4) + [adv(125), {"op": "sweep", "sw": 0}] \
+                          + inside(5) + [adv(10125), {"op": "sweep", "sw": 0}] + inside(6)
+                    out.append({"transparent": tr, "hold_down": hd, "switches": [{"ports": 4, "bufs": bufs}], "links": [], "ops": ops})
+            # every frame after the window: the option must change nothing (model-compared)
+            out.append({"transparent": False, "hold_down": hd, "switches": [{"ports": 4, "bufs": 2}], "links": [], "ops": [adv(hd * 1000)] + self.walk()})
+            out.append({"transparent": False, "hold_down": hd, "switches": [{"ports": 4, "bufs": 0}], "links": [], "ops": [adv(hd * 1000 + 125)] + self.walk()[:12]})
+        # a network inside the window and after it
+        for hd in (2, 10):
+            out.append({"transparent": False, "hold_down": hd, "switches": [{"ports": 3, "bufs": 1}, {"ports": 2, "bufs": 0}, {"ports": 3, "bufs": 2}],
+                        "links": [[0, 3, 1, 1], [1, 2, 2, 1]],
+                        "ops": [rx(1, A, B, sw=0), rx(2, B, A, sw=2), rx(1, A, B, sw=0), adv(hd * 1000 - 125), rx(3, Cc, BCAST, sw=2), rx(1, A, B, sw=0), adv(125),
+                                rx(1, A, BCAST, sw=0), rx(2, B, A, sw=2), rx(1, A, B, sw=0), rx(3, Cc, A, sw=2), rx(2, B, STP, sw=2)]})
+        # ignore: the named switches are left alone, every other switch is a learning bridge as before
+        for nsw in (2, 3):
+            for mask in range(1, 2 ** nsw - 1):
+                ign = [i for i in range(nsw) if mask >> i & 1]
+                ops = []
+                for fr in [rx(1, A, BCAST), rx(2, B, A), rx(1, A, B), rx(3, Cc, A), rx(1, A, B), rx(2, B, Cc), rx(2, B, STP), rx(3, B, BCAST), rx(1, A, B)]:
+                    ops += [dict(fr, sw=i) for i in range(nsw)]
+                out.append({"transparent": False, "ignore": ign, "hold_down": 2 if mask == 2 else 0,
+                            "switches": [{"ports": 3, "bufs": (i + mask) % 3} for i in range(nsw)], "links": [], "ops": ops})
+        # a plain case after the option cases: the defaults are back
+        out.append({"transparent": False, "switches": [{"ports": 4, "bufs": 1}], "links": [], "ops": self.walk()[:8]})
+        return out
+
+    def fault_cases(self):
+        """HARDENING 7, 11, 16: a fault at every point of the loop, in every spelling.  dp: the k-th physical send of the switch raises (the tap /
+        pcap / socket behind a port refuses one frame) — that frame may be lost, every later frame is forwarded like an ideal bridge and no
+        buffer stays occupied.  ctl: the k-th write of the controller to the switch is late (EAGAIN and friends, partial writes: nothing
+        is lost, model-compared) or fails for good (the controller drops that switch; the OTHER switches go on unharmed)."""
+        out = []
+        walk = self.walk()
+        one = lambda ops, bufs, fault: {"transparent": False, "fault": fault, "switches": [{"ports": 4, "bufs": bufs}], "links": [], "ops": ops}
+        for bufs in (0, 1, 2):
+            for k in range(1, 27):                                   # the walk emits 26 frames
+                out.append(one(walk, bufs, {"at": "dp", "sw": 0, "k": k, "exc": DP_SPELLINGS[(k + 5 * bufs) % len(DP_SPELLINGS)]}))
+        for i, sp in enumerate(DP_SPELLINGS):                        # every spelling at the first forwarded frame of a new conversation and in a flood
+            out.append(one(walk, 0, {"at": "dp", "sw": 0, "k": 4, "exc": sp}))
+            out.append(one(walk, i % 3, {"at": "dp", "sw": 0, "k": 2, "exc": sp}))
+        for bufs in (0, 1):
+            for k in range(1, 24, 2 if bufs else 1):
+                out.append(one(walk, bufs, {"at": "ctl", "sw": 0, "k": k, "exc": CTL_DELAY[(k + bufs) % len(CTL_DELAY)]}))
+        for sp in CTL_DELAY:
+            out.append(one(walk[:9], 0, {"at": "ctl", "sw": 0, "k": 5, "exc": sp}))
+        two = []
+        for fr in walk[:14]: two += [dict(fr, sw=0), dict(fr, sw=1)]
+        for k in (1, 2, 5, 6, 9):
+            for j, sp in enumerate(CTL_FATAL):
+                if (k + j) % 2: continue
+                out.append({"transparent": False, "fault": {"at": "ctl", "sw": k % 2, "k": k, "exc": sp},
+                            "switches": [{"ports": 4, "bufs": k % 3}, {"ports": 4, "bufs": (k + 1) % 3}], "links": [], "ops": two})
+        for k in (3, 7, 11):                                         # a lost frame on one switch of two
+            out.append({"transparent": False, "fault": {"at": "dp", "sw": 1, "k": k, "exc": "OSError"},
+                        "switches": [{"ports": 4, "bufs": 0}, {"ports": 4, "bufs": 1}], "links": [], "ops": two})
+        return out
 
     def _exhaustive(self, tier):
         """ALL sequences of length 4 over the alphabet (their prefixes are the shorter ones), pools of 0 and 1; the thorough tier adds three
@@ -769,7 +898,16 @@ class C11(Check):
                     if rng.random() < 0.25: x["vlan"] = [rng.choice([0, 1, 100, 4095]), rng.choice([0, 3, 7])]
                     if kind in ("udp", "tcp", "icmp", "ipraw") and rng.random() < 0.25: x["frag"] = rng.choice([0x2000, 0x2000, 0x2010, 0x0010, 0x4000, 0x6000])
                 ops.append(self.rx(port, src, dst, kind, key, pay, sw, x))
-        return {"transparent": rng.random() < 0.25, "pd": rng.random() < 0.7, "switches": sws, "links": links, "ops": ops}
+        c = {"transparent": rng.random() < 0.25, "pd": rng.random() < 0.7, "switches": sws, "links": links, "ops": ops}
+        # options of the component and injected faults (drawn last: the histories above are the same as without them)
+        r = rng.random()
+        if r < 0.10: c["hold_down"] = rng.choice([1, 2, 5, 10, 30])
+        elif r < 0.20: c["fault"] = {"at": "dp", "sw": rng.randrange(nsw), "k": rng.randint(1, 30), "exc": rng.choice(DP_SPELLINGS)}
+        elif r < 0.26: c["fault"] = {"at": "ctl", "sw": rng.randrange(nsw), "k": rng.randint(1, 30), "exc": rng.choice(CTL_DELAY)}
+        elif r < 0.30 and nsw > 1: c["fault"] = {"at": "ctl", "sw": rng.randrange(nsw), "k": rng.randint(1, 20), "exc": rng.choice(CTL_FATAL)}
+        elif r < 0.34 and nsw > 1: c["ignore"] = sorted(rng.sample(range(nsw), rng.randint(1, nsw - 1)))
+        if r < 0.34 and rng.random() < 0.3: c["hold_down"] = rng.choice([1, 5, 10])
+        return c
 
     def generate(self, rng, tier):
         if tier == "thorough":
@@ -785,6 +923,15 @@ class C11(Check):
     # ------------------------------------------------------------------ model side
     def model_request(self, case):
         if any(op["op"] == "burst" for op in case["ops"]): return None      # bursts are judged by the oracle only (the model answers packet-ins one at a time)
+        if case.get("ignore"): return None                                   # an uncontrolled switch has no model counterpart
+        f = case.get("fault")
+        if f and not (f["at"] == "ctl" and f["exc"] in CTL_DELAY): return None   # lost frames: oracle only.  A write that is merely late changes nothing: model-compared
+        if case.get("hold_down"):
+            # the model has no hold-down: it applies when every frame arrives after the window (then the option must change nothing)
+            now, until = T0_MS, T0_MS + 1000 * int(case["hold_down"])
+            for op in case["ops"]:
+                if op["op"] == "adv": now += op["ms"]
+                elif op["op"] == "rx" and now < until: return None
         ops = []
         for op in case["ops"]:
             if op["op"] == "rx":
@@ -840,6 +987,13 @@ class C11(Check):
         via_flow = [dict() for _ in range(nsw)]    # mac -> True when its most recent arrival was forwarded by a cached flow (no packet-in)
         spec = [dict() for _ in range(nsw)]        # (in_port or 0, src, dst, kind, key) -> [created, touched, idle_ms, hard_ms]
         now = T0_MS
+        # documented options: during the first `hold_down` seconds after the switch connected (all switches connect at T0) the component
+        # does not flood, by design; switches named in `ignore` are not controlled by the component, so the property says nothing about them
+        hold_until = T0_MS + 1000 * int(case.get("hold_down") or 0)
+        ignored = set(case.get("ignore") or [])
+        fault = case.get("fault") or {}
+        lossy = fault.get("at") == "dp" or (fault.get("at") == "ctl" and fault.get("exc") in CTL_FATAL)
+        dead = set()                               # switches whose control connection the controller gave up after a fatal write error
         if len(obs["steps"]) != len(case["ops"]): return "harness: step count", "harness"
         for op, st in zip(case["ops"], obs["steps"]):
             if op["op"] == "adv":
@@ -863,6 +1017,10 @@ class C11(Check):
                 for a in arrs:
                     si, port = a["sw"], a["port"]
                     nports = case["switches"][si]["ports"]
+                    if si in ignored: continue
+                    hit = bool(a.get("fault")) and lossy           # the injected fault fired while this frame was processed: it may be lost
+                    if hit and fault.get("at") == "ctl": dead.add(si)
+                    if si in dead: continue                        # no controller any more: not a switch "controlled by the component"
                     if not (1 <= port <= nports):
                         if a["out"] or a["pin"]: return "frame on a nonexistent port was processed", "bad-port"
                         continue
@@ -878,15 +1036,26 @@ class C11(Check):
                     if port in ports: return "frame sent back out its ingress port (%s)" % where, "echo"
                     if len(set(ports)) != len(ports): return "frame delivered twice to a port (%s): %s" % (where, ports), "dup"
                     if any(not (1 <= p <= nports) for p in ports): return "delivery to a nonexistent port", "bad-out-port"
-                    if any(a["bufs"]): return "buffer still occupied at quiescence (%s): %s" % (where, a["bufs"]), "buffer-leak"
+                    if any(a["bufs"]):
+                        return "buffer still occupied at quiescence (%s): %s" % (where, a["bufs"]), ("buffer-leak:send-raised" if hit else "buffer-leak")
                     others = [p for p in range(1, nports + 1) if p != port]
                     known = seen[si].get(dst, [])
                     if src == dst: known = [port] + known          # the frame itself is the latest sighting of its own destination
                     filt = (not case["transparent"]) and (is_filtered_mac(dst) or et == LLDP_TYPE)
                     if filt:
                         if ports: return "bridge-filtered / LLDP frame forwarded (%s) to %s" % (where, ports), "filtered-forwarded"
+                    elif hit:
+                        # the frame that met the fault may be lost, wholly or on some ports; what did come out must still be allowed
+                        allowed = others if (is_mc(dst) or not known) else [p for p in known if p != port]
+                        if any(p not in allowed for p in ports):
+                            return "frame that met the injected fault was delivered where it must not go (%s): %s" % (where, ports), "fault-frame-astray"
+                        if a["pin"] and not (is_mc(dst) or not known):     # the entry may have been installed before the fault: it counts as cached
+                            if known[0] == port: spec[si][(0,) + hdr] = [now, now, 10000, 10000]
+                            else: spec[si][(port,) + hdr] = [now, now, 10000, 30000]
                     elif is_mc(dst) or not known:
-                        if sorted(ports) != others:
+                        if now < hold_until and a["pin"] and not ports:
+                            pass                                   # hold-down: not flooded, as documented (the other clauses still apply)
+                        elif sorted(ports) != others:
                             return "%s destination not flooded to all other ports (%s): %s" % ("multicast" if is_mc(dst) else "unknown", where, ports), \
                                    ("mc-not-flooded" if is_mc(dst) else "unknown-not-flooded")
                     else:
@@ -902,7 +1071,7 @@ class C11(Check):
                         elif not cached and ports != want:
                             return ("forwarded by a cached flow that its idle 10 s / hard 30 s timeouts and a sweep should have removed, not to the most "
                                     "recent port (%s): %s, seen %s" % (where, ports, known)), "fresh:cached-flow-outlived-timeout"
-                    if a.get("errs"):
+                    if a.get("errs") and not hit:
                         return ("an exception was contained (logged, message or event dropped) while this frame was processed: a controller message or "
                                 "a packet-in was not acted on (%s): %s" % (where, a["errs"])), "swallowed-exception:" + a["errs"][0]
                     seen[si].setdefault(src, [])
